@@ -6,6 +6,6 @@ for d in $dirs; do
   id=$(basename $d)
   [ -f $d/patch.diff ] || continue
   ( printf "%-10s %s\n" "$id" "$(./tools/mutrun.sh $PWD/$d/patch.diff | tail -1)" ) &
-  while [ $(jobs -r | wc -l) -ge 6 ]; do sleep 0.3; done
+  while [ $(jobs -r | wc -l) -ge ${PAR:-6} ]; do sleep 0.3; done
 done
 wait
